@@ -379,7 +379,7 @@ func lemma_parseFrame_trans(p *Parser) {
 //@   ensures [asi.end@C02,C06,C03] implies(old(p.PeekToken.Type) == token.EOF || old(p.PeekToken.Type) == token.RBRACE, result)
 //@   ensures [asi.newline@C02,C06,C03] implies(old(p.PeekToken.AfterNewline) && startsStatement(old(p.PeekToken.Type)), result)
 //@   ensures [asi.smart@C13] implies(p.smartSemicolons && old(p.PeekToken.AfterNewline) && (old(p.PeekToken.Type) == token.LPAREN || old(p.PeekToken.Type) == token.LBRACKET), result && len(p.errors) == len(old(p.errors)))
-//@   ensures [asi.sameline@C02,C13] implies(!p.tolerantMode && !old(p.PeekToken.AfterNewline) && old(p.PeekToken.Type) != token.SEMICOLON && old(p.PeekToken.Type) != token.EOF && old(p.PeekToken.Type) != token.RBRACE, !result)
+//@   ensures [asi.sameline@C02,C13,C12,C06,C03] implies(!p.tolerantMode && !old(p.PeekToken.AfterNewline) && old(p.PeekToken.Type) != token.SEMICOLON && old(p.PeekToken.Type) != token.EOF && old(p.PeekToken.Type) != token.RBRACE, !result)
 
 // ---- the parse-function family ----
 
